@@ -317,6 +317,30 @@ func genC20Calls(t *rapid.T, s *c20Shared, n int) []c20Call {
 			if rec.Commitment(18) == upd.Commitment(18) {
 				upd = otherKey(t, rec)
 			}
+			if defaults := rapid.IntRange(0, 3).Draw(t, "defaultKeys"); defaults > 0 {
+				// one or both operation keys left to the VDR (it generates them): the DID differs from call to call, what is
+				// compared is that the DID it returns resolves to the document handed in
+				var copts []vdrapi.DIDMethodOption
+				if defaults == 1 {
+					copts = append(copts, vdrapi.WithOption(longform.UpdatePublicKeyOpt, upd.Public()))
+				} else if defaults == 2 {
+					copts = append(copts, vdrapi.WithOption(longform.RecoveryPublicKeyOpt, rec.Public()))
+				}
+				calls = append(calls, c20Call{kind, func() string {
+					s.enter(&s.inVDR)
+					defer s.leave(&s.inVDR)
+					r, err := s.vdr.Create(cloneDoc(d.doc), copts...)
+					if err != nil {
+						return "ERR:" + err.Error()
+					}
+					back, err := s.vdr.Read(r.DIDDocument.ID)
+					if err != nil {
+						return "ERR:" + err.Error()
+					}
+					return fmt.Sprintf("created with default keys: %d verification methods, %d services, resolves: %v", len(back.DIDDocument.VerificationMethod), len(back.DIDDocument.Service), back.DIDDocument.ID == r.DIDDocument.ID)
+				}})
+				break
+			}
 			calls = append(calls, c20Call{kind, func() string {
 				s.enter(&s.inVDR)
 				defer s.leave(&s.inVDR)
